@@ -1,12 +1,12 @@
 package main
 
 import (
+	"fmt"
 	"go/ast"
 	"go/token"
 	"go/types"
 	"os"
 	"path/filepath"
-	"sort"
 	"strings"
 )
 
@@ -145,7 +145,7 @@ func runC08(c *Ctx) {
 	c.Rule("C08-R3", "checks.CheckNames == {Reporter() of every RuleChecker implementer except ErrorCheck}", 27)
 	c.Rule("C08-R4", "checks.OnlineChecks == {Reporter() | Meta().Online}; CLI expansion loops range over the tables", 28)
 	c.Rule("C08-R5", "docs/checks/<name>.md exists for every check name", 27)
-	c.Rule("C08-R6", "enabled/disabled lists are matched against the registered name by equality", 6)
+	c.Rule("C08-R6", "enabled/disabled lists are matched against the registered name by equality (isEnabled evaluated on every combination of its inputs)", 38)
 	defer c08ServersAlways(c)
 
 	impls := checkerTypes(c, "C08-R3")
@@ -620,125 +620,7 @@ func c08Matching(c *Ctx) {
 	if fi == nil {
 		return
 	}
-	info := fi.Pkg.TypesInfo
-	sig := fi.Obj.Type().(*types.Signature)
-	param := func(name string) types.Object {
-		if i := paramIndex(sig, name); i >= 0 {
-			return sig.Params().At(i)
-		}
-		return nil
-	}
-	nameP, enabledP, disabledP := param("name"), param("enabledChecks"), param("disabledChecks")
-	if nameP == nil || enabledP == nil || disabledP == nil {
-		c.Undecided("C08-R6", "anchor:isEnabled:params", fi.Decl.Pos(), "expected parameters name, enabledChecks, disabledChecks")
-		return
-	}
-	// every comparison that involves the range variable of a loop over list L
-	cmpWithName := func(list types.Object) (eqName bool, others []string, loop *ast.RangeStmt) {
-		ast.Inspect(fi.Decl.Body, func(n ast.Node) bool {
-			rs, ok := n.(*ast.RangeStmt)
-			if !ok || objOf(info, rs.X) != list {
-				return true
-			}
-			loop = rs
-			val, _ := rs.Value.(*ast.Ident)
-			if val == nil {
-				return true
-			}
-			vobj := info.Defs[val]
-			ast.Inspect(rs.Body, func(m ast.Node) bool {
-				b, ok := m.(*ast.BinaryExpr)
-				if !ok || (b.Op != token.EQL && b.Op != token.NEQ) {
-					return true
-				}
-				var other ast.Expr
-				if objOf(info, b.X) == vobj {
-					other = b.Y
-				} else if objOf(info, b.Y) == vobj {
-					other = b.X
-				} else {
-					return true
-				}
-				if objOf(info, other) == nameP && b.Op == token.EQL {
-					eqName = true
-				} else {
-					others = append(others, roleStr(info, other))
-				}
-				return true
-			})
-			return true
-		})
-		return
-	}
-	eq, others, loop := cmpWithName(enabledP)
-	if loop == nil {
-		c.Bad("C08-R6", "isEnabled:enabled-loop", fi.Decl.Pos(), "no loop over enabledChecks")
-	} else {
-		c.Check(eq && len(others) == 0, "C08-R6", "isEnabled:enabled entries == name only", loop.Pos(), "enabled list matched by name equality only",
-			"enabled list is compared with "+strings.Join(append([]string{"name?=" + boolStr(eq)}, others...), ", "))
-		// the loop's positive exit returns true, and the fallthrough returns false
-		rets := returnsIn(loop.Body.List)
-		okRet := len(rets) > 0
-		for _, r := range rets {
-			if len(r.Results) != 1 || exprStr(r.Results[0]) != "true" {
-				okRet = false
-			}
-		}
-		c.Check(okRet, "C08-R6", "isEnabled:enabled match returns true", loop.Pos(), "match returns true", "a match in the enabled list does not return true")
-	}
-	eq, others, loop = cmpWithName(disabledP)
-	if loop == nil {
-		c.Bad("C08-R6", "isEnabled:disabled-loop", fi.Decl.Pos(), "no loop over disabledChecks")
-	} else {
-		// `locked` shields a check from comments only: the scan of the disabled
-		// list (which is also the list of --disabled / checks{disabled} / --offline
-		// names) is not under a condition on it
-		lockedGuard := ""
-		if lp := param("locked"); lp != nil {
-			for _, a := range lexicalGuards(parentMap(fi.Decl.Body), loop, fi.Decl.Body) {
-				if mentionsObj(info, a.E, lp) {
-					lockedGuard = roleStr(info, a.E)
-				}
-			}
-		}
-		c.Check(lockedGuard == "", "C08-R6", "isEnabled:the disabled list applies to locked checks too", loop.Pos(), "not guarded by locked",
-			"the scan of the disabled list is guarded by `"+lockedGuard+"`: a check defined in a `locked = true` rule block can no longer be switched off by name (checks { disabled }, --disabled, --offline)")
-		sort.Strings(others)
-		// accepted spellings besides name: check.String() and name(+tag)
-		okOthers := true
-		for _, o := range others {
-			if o != "«RuleChecker».String()" && !strings.HasPrefix(o, "fmt.Sprintf(\"%s(+%s)\", str, ") {
-				okOthers = false
-			}
-		}
-		c.Check(eq && okOthers, "C08-R6", "isEnabled:disabled entries == name | check.String() | name(+tag)", loop.Pos(), "disabled list matched by equality on the documented spellings",
-			"disabled list is compared with "+strings.Join(append([]string{"name?=" + boolStr(eq)}, others...), ", "))
-		rets := returnsIn(loop.Body.List)
-		okRet := len(rets) > 0
-		for _, r := range rets {
-			if len(r.Results) != 1 || exprStr(r.Results[0]) != "false" {
-				okRet = false
-			}
-		}
-		c.Check(okRet, "C08-R6", "isEnabled:disabled match returns false", loop.Pos(), "match returns false", "a match in the disabled list does not return false")
-	}
-	// empty enabled list means everything is enabled: guarded `return true` on len(enabledChecks) == 0
-	fl := c.P.NewFlow(fi)
-	lenGuard := false
-	for _, b := range fl.G.Blocks {
-		cond, _, ok := fl.condOf(b)
-		if !ok {
-			continue
-		}
-		if be, ok := ast.Unparen(cond).(*ast.BinaryExpr); ok && be.Op == token.EQL {
-			if call, ok := be.X.(*ast.CallExpr); ok && exprStr(call.Fun) == "len" && len(call.Args) == 1 && objOf(info, call.Args[0]) == enabledP {
-				if v, ok := constInt(info, be.Y); ok && v == 0 {
-					lenGuard = true
-				}
-			}
-		}
-	}
-	c.Check(lenGuard, "C08-R6", "isEnabled:len(enabledChecks)==0 guard", fi.Decl.Pos(), "empty enabled list enables everything", "no len(enabledChecks) == 0 guard")
+	c08IsEnabledSemantics(c)
 
 	// parsedRule.isEnabled: rule{disable/enable} compare rule.name; both isEnabled calls pass rule.name, rule.check, rule.tags
 	pr := c.MustFunc("C08-R6", "internal/config.parsedRule.isEnabled")
@@ -842,4 +724,134 @@ func c08ServersAlways(c *Ctx) {
 			"GenerateStatic is skipped under `"+bad+"`: with --offline no server exists, so per-server checks that are NOT in the online list (rule/duplicate) stop running although their name was never disabled")
 	}
 	c.Check(n >= 3, "C08-R4", "actions set up Prometheus servers", token.NoPos, itoa(n)+" call sites in cmd/pint", "expected GenerateStatic to be called by lint, ci and watch")
+}
+
+// c08IsEnabledSemantics decides config.isEnabled by running it (minieval.go)
+// on every relevant combination of its inputs and comparing the result with
+// the documented meaning: an always-enabled check is on; a check that a rule
+// comment switches off is off unless its rule block is locked; a check named
+// in the disabled list — by its registered name, by its String(), or as
+// name(+tag) for one of the server's tags — is off (locked or not); otherwise
+// it is on when the enabled list is empty or holds its registered name.
+func c08IsEnabledSemantics(c *Ctx) {
+	fi := c.MustFunc("C08-R6", "internal/config.isEnabled")
+	if fi == nil {
+		return
+	}
+	info := fi.Pkg.TypesInfo
+	sig := fi.Obj.Type().(*types.Signature)
+	par := func(name string) types.Object {
+		if i := paramIndex(sig, name); i >= 0 {
+			return sig.Params().At(i)
+		}
+		return nil
+	}
+	enabledP, disabledP, nameP, checkP, tagsP, lockedP := par("enabledChecks"), par("disabledChecks"), par("name"), par("check"), par("promTags"), par("locked")
+	if enabledP == nil || disabledP == nil || nameP == nil || checkP == nil || tagsP == nil || lockedP == nil {
+		c.Undecided("C08-R6", "anchor:isEnabled:params", fi.Decl.Pos(), "expected parameters enabledChecks, disabledChecks, name, check, promTags, locked")
+		return
+	}
+	const N, S, T = "N", "S(…)", "t"
+	disabledShapes := [][]string{{}, {N}, {S}, {N + "(+" + T + ")"}, {"X"}, {"X", N}, {N + "(+other)"}}
+	enabledShapes := [][]string{{}, {N}, {"X"}, {"X", N}, {S}}
+	show := func(l []string) string {
+		if len(l) == 0 {
+			return "-"
+		}
+		return strings.Join(l, ",")
+	}
+	for _, dis := range disabledShapes {
+		for _, en := range enabledShapes {
+			key := "isEnabled:disabled=[" + show(dis) + "] enabled=[" + show(en) + "]"
+			bad, undec := "", ""
+			for bits := 0; bits < 16; bits++ {
+				always, locked, byComment, hasTag := bits&1 != 0, bits&2 != 0, bits&4 != 0, bits&8 != 0
+				tags := []string{}
+				if hasTag {
+					tags = []string{T}
+				}
+				// reference
+				want := false
+				switch {
+				case always:
+					want = true
+				case !locked && byComment:
+					want = false
+				default:
+					off := false
+					for _, d := range dis {
+						if d == N || d == S {
+							off = true
+						}
+						for _, tg := range tags {
+							if d == N+"(+"+tg+")" {
+								off = true
+							}
+						}
+					}
+					if off {
+						want = false
+					} else if len(en) == 0 {
+						want = true
+					} else {
+						for _, e := range en {
+							if e == N {
+								want = true
+							}
+						}
+					}
+				}
+				ev := &miniEval{info: info, prog: c.P, env: map[types.Object]mval{}}
+				ev.env[enabledP], ev.env[disabledP] = mList(en), mList(dis)
+				ev.env[nameP], ev.env[tagsP], ev.env[lockedP] = mStr(N), mList(tags), mBool(locked)
+				ev.sel = func(ev *miniEval, sel *ast.SelectorExpr) (mval, bool) {
+					// check.Meta().AlwaysEnabled
+					if sel.Sel.Name == "AlwaysEnabled" {
+						if call, ok := ast.Unparen(sel.X).(*ast.CallExpr); ok {
+							if s2, ok := call.Fun.(*ast.SelectorExpr); ok && s2.Sel.Name == "Meta" && objOf(info, s2.X) == checkP {
+								return mBool(always), true
+							}
+						}
+					}
+					return mval{}, false
+				}
+				ev.oracle = func(ev *miniEval, call *ast.CallExpr) (mval, bool) {
+					if isCallTo(info, call, "internal/config.isDisabledForRule") {
+						return mBool(byComment), true
+					}
+					if s2, ok := call.Fun.(*ast.SelectorExpr); ok && s2.Sel.Name == "String" && len(call.Args) == 0 && objOf(info, s2.X) == checkP {
+						return mStr(S), true
+					}
+					if fn := Callee(info, call); fn != nil && fn.Pkg() != nil && fn.Pkg().Path() == "fmt" && fn.Name() == "Sprintf" && len(call.Args) == 3 {
+						if f, ok := constString(info, call.Args[0]); ok && f == "%s(+%s)" {
+							a, b := ev.expr(call.Args[1]), ev.expr(call.Args[2])
+							if a.k == mvStr && b.k == mvStr {
+								return mStr(a.s + "(+" + b.s + ")"), true
+							}
+						}
+					}
+					if fn := Callee(info, call); fn != nil && fn.Pkg() != nil && fn.Pkg().Path() == "log/slog" {
+						return mval{}, true
+					}
+					return mval{}, false
+				}
+				ctl := ev.block(fi.Decl.Body.List)
+				if ev.undec != "" || ctl.kind != 'r' || ctl.ret.k != mvBool {
+					undec = ev.undec
+					if undec == "" {
+						undec = "no boolean result"
+					}
+					break
+				}
+				if ctl.ret.b != want && bad == "" {
+					bad = fmt.Sprintf("always-enabled=%v locked=%v disabled-by-comment=%v server-tags=%v: isEnabled yields %v, the documented meaning is %v", always, locked, byComment, tags, ctl.ret.b, want)
+				}
+			}
+			if undec != "" {
+				c.Undecided("C08-R6", key, fi.Decl.Pos(), undec)
+				continue
+			}
+			c.Check(bad == "", "C08-R6", key, fi.Decl.Pos(), "16 flag combinations agree with the documented meaning", "with the disabled list ["+show(dis)+"] and the enabled list ["+show(en)+"] (N = the registered name, S = check.String()) and "+bad)
+		}
+	}
 }
